@@ -168,4 +168,17 @@ theorem sliceOffsetsGo_eq (clampV : Bool) (mask newAxis : Nat) (isBegin : Bool) 
           simpa using step
 
 
+theorem mbqm_sign_nonneg (x m s : Int) (hx : 0 ≤ x) (hm0 : 0 ≤ m) (hm : m < 2147483648) : 0 ≤ mbqm x m s := by
+  unfold mbqm
+  have hp := two_pow_pos (if s > 0 then s.toNat else 0)
+  have a := srdhm_contract_nonneg (x * (2 : Int) ^ (if s > 0 then s.toNat else 0)) m (Int.mul_nonneg hx (by omega)) hm0 hm
+  exact (rdivpot_contract_nonneg _ _ a.1).1
+
+theorem mbqm_sign_nonpos (x m s : Int) (hx : x ≤ 0) (hm0 : 0 ≤ m) (hm : m < 2147483648) : mbqm x m s ≤ 0 := by
+  unfold mbqm
+  have hp := two_pow_pos (if s > 0 then s.toNat else 0)
+  have a := srdhm_contract_neg (x * (2 : Int) ^ (if s > 0 then s.toNat else 0)) m (Int.mul_nonpos_of_nonpos_of_nonneg hx (by omega)) hm0 hm
+  exact (rdivpot_contract_neg _ _ a.2).2
+
+
 end VelaVerif.Lemmas.Rewrites2
